@@ -104,7 +104,14 @@ def correspondence(ctx):
         for _ in range(rng.choice([1, 1, 2, 3])):
             other = small_other(rng, rng.choice(['o', 'p', 'q', 'r']))
             steps.append(gen_connect(rng, cur_base, other) if rng.random() < 0.7 else wrapper_step(rng, cur_base, other))
-        steps.append(['copy'])
+        # half of the histories end by extracting the last named block as a circuit, the others by a copy
+        last = steps[-1]
+        bname = last[5] if last[0] == 'connect' else last[6]
+        if bname and rng.random() < 0.5:
+            steps.append(['into_circuit', bname])
+            ctx.count('ends:into_circuit')
+        else:
+            steps.append(['copy'])
         reqs.append({'op': 'mutate', 'c': base, 'steps': steps})
         ctx.case(json.dumps([base['gates'], steps]))
         if k < 1:
